@@ -50,6 +50,9 @@ REC_SETUP = [
         # suspended by an OrderError and resumed)
         {"id": "f_aa", "type": "Any", "isFormula": True,
          "formula": "$f_age2 if $age > 20 else $age"},
+        # empty columns (isFormula with no formula): entering data converts them to data columns
+        {"id": "e_text", "type": "Text", "isFormula": True, "formula": ""},
+        {"id": "e_any", "type": "Any", "isFormula": True, "formula": ""},
     ]]],
     [["AddColumn", "Teams", "members", {"type": "RefList:People", "isFormula": False}],
      ["AddColumn", "Teams", "f_n", {"type": "Any", "isFormula": True, "formula": "len($members)"}],
@@ -102,6 +105,9 @@ class WRec(World):
     for r in P[:1]:
       A(("upd P%d name" % r, [["UpdateRecord", "People", r, {"name": "zed"}]]))
       A(("upd P%d defaults" % r, [["UpdateRecord", "People", r, {"name": "", "age": 0, "team": 0}]]))
+      if has_col(doc, 'People', 'e_text'):
+        A(("upd P%d e_text" % r, [["UpdateRecord", "People", r, {"e_text": "hello"}]]))
+        A(("upd P%d e_any" % r, [["UpdateRecord", "People", r, {"e_any": 5}]]))
       if not self.reduced:
         A(("upd P%d tags dup" % r, [["UpdateRecord", "People", r, {"tags": ["L", "b", "b"]}]]))
         A(("upd P%d age=None" % r, [["UpdateRecord", "People", r, {"age": None}]]))
@@ -212,6 +218,10 @@ class WSchema(World):
       if hp('tags'):
         A(("modcol P.tags Text", [["ModifyColumn", "People", "tags", {"type": "Text"}]]))
       A(("addrule P", [["AddEmptyRule", "People", 0, col_ref(doc, 'People', 'name') if hp('name') else 0]]))
+      A(("addrowrule P", [["AddEmptyRule", "People", 0, 0]]))
+      raw = doc.eng.docmodel.tables.lookupOne(tableId='People').rawViewSectionRef
+      if raw and raw.rules:
+        A(("clear row rules P", [["UpdateRecord", "_grist_Views_section", raw.id, {"rules": None}]]))
       if self.renames:
         A(("rentable P->Folk", [["RenameTable", "People", "Folk"]]))
       A(("remtable P", [["RemoveTable", "People"]]))
@@ -269,6 +279,10 @@ class WSchema(World):
           ["ApplyDocActions", [
               ["AddColumn", "People", "zz", {"type": "Int", "isFormula": False, "formula": ""}],
               ["AddColumn", "People", "class", {"type": "Int", "isFormula": False, "formula": ""}]]]]))
+      if hp('f_age2'):
+        # a successful user-level schema change followed by a schema doc action that fails
+        A(("FAIL remcol then addcol bad type", [["RemoveColumn", "People", "f_age2"],
+                                                ["AddColumn", "People", "cbad", {"type": "BAD", "isFormula": False}]]))
       A(("FAIL remcol missing", [["RemoveColumn", "People", "nope"]]))
       A(("FAIL add then bad", [["AddColumn", "People", "tmpc", {"type": "Int", "isFormula": False}],
                                ["RemoveColumn", "People", "nope"]]))
@@ -294,7 +308,11 @@ def _sum_of_sum(doc):
   # a summary OF a summary table: removals there are caused by auto-removals one level below
   tref = table_ref(doc, 'Src_summary_k_rl')
   k = col_ref(doc, 'Src_summary_k_rl', 'k')
-  return [["CreateViewSection", tref, 0, "record", [k], None]]
+  rl = col_ref(doc, 'Src_summary_k_rl', 'rl')
+  # two second-level summaries sharing the group-by column k: their helper columns both hang off
+  # Src_summary_k_rl.k, so a new first-level group dirties both in one pass
+  return [["CreateViewSection", tref, 0, "record", [k], None],
+          ["CreateViewSection", tref, 0, "record", [k, rl], None]]
 
 
 def _sum_ref_display(doc):
@@ -577,6 +595,7 @@ class W2Way(World):
       if hb('xs'):
         A_(("modcol B.xs Ref", [["ModifyColumn", "B", "xs", {"type": "Ref:A"}]]))
         A_(("remcol B.xs", [["RemoveColumn", "B", "xs"]]))
+        A_(("FAIL remcol B.xs then missing", [["RemoveColumn", "B", "xs"], ["RemoveColumn", "A", "nosuch"]]))
       if ha('y'):
         A_(("modcol A.y Ref", [["ModifyColumn", "A", "y", {"type": "Ref:B"}]]))
       if hb('ys') and not self.reduced:
@@ -615,23 +634,36 @@ def _trig_cols(doc):
   err = ["AddColumn", "T", "t_err", {"type": "Int", "isFormula": False, "recalcWhen": 0,
                                      "formula": "(value or 0) + 1 if $a != 2 else 1/0"}]
   g = ["AddColumn", "T", "g", {"type": "Any", "isFormula": True, "formula": "$t_err"}]
+  # a formula (sorting before the trigger columns) that reads trigger cells
+  h = ["AddColumn", "T", "h", {"type": "Any", "isFormula": True, "formula": "$t_def * 10 + $t_self"}]
+  # a trigger formula that reads a formula cell of ANOTHER row and then a plain cell of its own
+  # row (not among its recalcDeps): not a counting formula, so C15's model leaves it alone
+  peer = ["AddColumn", "T", "t_peer", {"type": "Int", "isFormula": False, "recalcWhen": 0,
+                                       "formula": "($peer.c or 0) + ($b or 0)"}]
+  # a formula with a side effect that is never in place: recalcWhen=NEVER, so only a read-only
+  # call (get_formula_error on the cell) ever evaluates it, and must undo the added Dict row
+  side = ["AddColumn", "T", "t_side", {"type": "Ref:Dict", "isFormula": False, "recalcWhen": 1,
+                                       "formula": "Dict.lookupOrAddDerived(k=$a)"}]
   return [col("t_def", 0), col("t_never", 1), col("t_manual", 2), col("t_onc", 0), col("t_new", 0),
-          col("t_self", 0), err, g]
+          col("t_self", 0), err, g, h, peer, side]
 
 
 def _trig_deps(doc):
   a, c, s = (col_ref(doc, 'T', x) for x in ('a', 'c', 't_self'))
   upd = lambda cid, deps: ["UpdateRecord", "_grist_Tables_column", col_ref(doc, 'T', cid),
                            {"recalcDeps": ["L"] + deps}]
-  return [upd("t_def", [a]), upd("t_onc", [c]), upd("t_self", [s, a]), upd("t_err", [a])]
+  return [upd("t_def", [a]), upd("t_onc", [c]), upd("t_self", [s, a]), upd("t_err", [a]),
+          upd("t_peer", [a])]
 
 
 TRIG_SETUP = [
     [["AddTable", "T", [{"id": "a", "type": "Int"}, {"id": "b", "type": "Int"},
-                        {"id": "c", "type": "Any", "isFormula": True, "formula": "$a + 1"}]]],
+                        {"id": "c", "type": "Any", "isFormula": True, "formula": "$a + 1"},
+                        {"id": "peer", "type": "Ref:T"}]],
+     ["AddTable", "Dict", [{"id": "k", "type": "Int"}]]],
     _trig_cols,
     _trig_deps,
-    [["BulkAddRecord", "T", [None, None], {"a": [1, 2], "b": [10, 20]}]],
+    [["BulkAddRecord", "T", [None, None], {"a": [1, 2], "b": [10, 20], "peer": [2, 1]}]],
 ]
 
 
@@ -704,6 +736,9 @@ class WTrig(World):
               "recalcDeps": ["L", col_ref(doc, 'T', 'b')]}]]))
       if ht('c'):
         A(("modcol T.c formula", [["ModifyColumn", "T", "c", {"formula": "$a + 2"}]]))
+      if ht('b'):
+        # (more undo actions than stored actions: the removed values and the column)
+        A(("remcol T.b", [["RemoveColumn", "T", "b"]]))
     return out
 
 
@@ -717,6 +752,10 @@ def _spec(name, keys, order_by='__absent__', sort_by=None):
   for (lc, qc, mode) in keys:
     if mode == 'eq':
       args.append("%s=$%s" % (lc, qc))
+    elif mode == 'const_none':
+      args.append("%s=None" % lc)
+    elif mode == 'list_of':
+      args.append("%s=list($%s)" % (lc, qc))
     elif mode == 'contains':
       args.append("%s=CONTAINS($%s)" % (lc, qc))
     else:
@@ -746,6 +785,9 @@ LOOK_SPECS = [
     _spec("k_cont_s1", [("lst", "q", "contains")], order_by="s1"),
     _spec("k_cont_empty", [("lst", "q", "contains_empty")]),
     _spec("k_cont_key", [("lst", "q", "contains"), ("s1", "qi", "eq")], order_by="-s2"),
+    _spec("k_any", [("anyk", "q", "eq")]),
+    _spec("k_bool_none", [("flag", None, "const_none")]),
+    _spec("k_list_key", [("lst", "ql", "list_of")]),
     _spec("k_all_ds1", [], order_by="-s1"),
     _spec("k_all_none", [], order_by=None),
 ]
@@ -753,16 +795,20 @@ LOOK_SPECS = [
 LOOK_SETUP = [
     [["AddTable", "L", [{"id": "key", "type": "Text"}, {"id": "lst", "type": "ChoiceList"},
                         {"id": "ref", "type": "Ref:L"}, {"id": "s1", "type": "Int"},
-                        {"id": "s2", "type": "Text"}]]],
-    [["AddTable", "Q", [{"id": "q", "type": "Text"}, {"id": "qi", "type": "Int"}] +
+                        {"id": "s2", "type": "Text"}, {"id": "anyk", "type": "Any", "isFormula": False},
+                        {"id": "flag", "type": "Bool"}]]],
+    [["AddTable", "Q", [{"id": "q", "type": "Text"}, {"id": "qi", "type": "Int"},
+                        {"id": "ql", "type": "ChoiceList"}] +
       [{"id": "r_" + sp['name'], "type": "Any", "isFormula": True,
         "formula": "list(L.lookupRecords(%s).id)" % sp['args']} for sp in LOOK_SPECS] +
       [{"id": "o_" + sp['name'], "type": "Any", "isFormula": True,
         "formula": "L.lookupOne(%s).id" % sp['args']} for sp in LOOK_SPECS]]],
     [["BulkAddRecord", "L", [None, None, None, None], {
         "key": ["a", "b", "a", ""], "lst": [["L", "a", "b"], ["L", "a"], None, ["L", "b", "b"]],
-        "ref": [2, 2, 0, 1], "s1": [2, 1, 2, 1], "s2": ["x", "y", "x", "w"]}],
-     ["BulkAddRecord", "Q", [None, None, None], {"q": ["a", "b", ""], "qi": [2, 1, 0]}]],
+        "ref": [2, 2, 0, 1], "s1": [2, 1, 2, 1], "s2": ["x", "y", "x", "w"],
+        "anyk": ["a", "b", 5, None], "flag": [True, False, False, True]}],
+     ["BulkAddRecord", "Q", [None, None, None], {"q": ["a", "b", ""], "qi": [2, 1, 0],
+                                                 "ql": [["L", "a", "b"], ["L", "a"], None]}]],
 ]
 
 
@@ -785,6 +831,11 @@ class WLook(World):
       A(("upd L%d lst=[b]" % r, [["UpdateRecord", "L", r, {"lst": ["L", "b"]}]]))
       A(("upd L%d lst=None" % r, [["UpdateRecord", "L", r, {"lst": None}]]))
       A(("upd L%d ref=1" % r, [["UpdateRecord", "L", r, {"ref": 1}]]))
+    for r in RL[:1]:
+      # an indexed cell changes from a hashable value to a list (and back)
+      A(("upd L%d anyk=list" % r, [["UpdateRecord", "L", r, {"anyk": ["L", 1, 2]}]]))
+      A(("upd L%d anyk=b" % r, [["UpdateRecord", "L", r, {"anyk": "b"}]]))
+      A(("upd L%d flag" % r, [["UpdateRecord", "L", r, {"flag": False}]]))
     for r in RL[-1:]:
       A(("upd L%d key=a" % r, [["UpdateRecord", "L", r, {"key": "a"}]]))
       A(("upd L%d s2=zz" % r, [["UpdateRecord", "L", r, {"s2": "zz"}]]))
